@@ -47,6 +47,8 @@ def cases(tier, seed):
     for rep_ in range(6 if tier == "quick" else 24):
         out.append({"kind": "image", "cls": "image", "idx": rep_, "seed": seed, "big": True})
         out.append({"kind": "metrics", "cls": "metrics", "idx": rep_, "seed": seed, "big": True})
+    for shp in ((1, 1), (1, 2), (2, 1), (2, 2), (1, 3), (3, 3)):
+        out.append({"kind": "snr", "cls": "snr", "idx": 100 + shp[0] * 10 + shp[1], "seed": seed, "draws": 20000 if tier == "quick" else 100000, "tiny": list(shp)})
     nd = 200 if tier == "quick" else 2000
     for rep in range(4 if tier == "quick" else 8):
         out.append({"kind": "snr", "cls": "snr", "idx": rep, "seed": seed, "draws": nd // 4 if tier == "quick" else nd // 8})
@@ -285,6 +287,10 @@ def _snr(spec, ctx, R):
     Q = R.qslst
     rng = gen.rng_for(spec["seed"], "c18s", spec["idx"])
     H, W = int(rng.integers(8, 17)), int(rng.integers(8, 17))
+    if spec.get("tiny"):
+        # images of one to nine pixels: a bias of order 1/N in the noise power (N = 4 H W components) is 25 % .. 3 % there
+        H, W = spec["tiny"]
+        ctx.hit("snr:tiny_image")
     img = rng.standard_normal((H, W, 4)) * float(rng.choice([1.0, 50.0, 1e-3])) + float(rng.choice([0.0, 3.0]))
     snr_db = float(rng.choice([0.0, 10.0, 20.0, 35.0]))
     ctx.distinct("snr", img, snr_db)
@@ -304,11 +310,15 @@ def _snr(spec, ctx, R):
               detail={"snr_db": snr_db, "target": target, "mean_power": mp, "draws": K, "N": N})
     sigma = math.sqrt(target / N)
     ctx.check("snr_target", abs(float(np.mean(means))), 8 * sigma / math.sqrt(N * K), site="noise_mean")
-    # a single draw is also within 8 sigma of the target power
-    ctx.check("snr_target", max(abs(p - target) / target for p in powers), 9 * math.sqrt(2.0 / N), site="per_draw_power")
+    # a single draw: power / target * N is chi-square with N degrees of freedom; two-sided quantiles with total false-alarm mass 1e-9
+    from scipy.stats import chi2
+    hi = float(chi2.isf(0.5e-9 / K, N)) / N
+    lo = float(chi2.ppf(0.5e-9 / K, N)) / N
+    ctx.check("snr_target", bool(lo <= min(powers) / target and max(powers) / target <= hi), site="per_draw_power",
+              detail={"min_ratio": min(powers) / target, "max_ratio": max(powers) / target, "quantiles": [lo, hi], "N": N, "draws": K})
     # default generator path and the zero-signal path
     out = Q.add_awgn_snr(img.copy(), snr_db)
-    ctx.check("snr_target", out.shape == img.shape and abs(float(np.sum((out - img) ** 2)) - target) / target <= 9 * math.sqrt(2.0 / N),
+    ctx.check("snr_target", out.shape == img.shape and float(chi2.ppf(1e-10, N)) / N <= float(np.sum((out - img) ** 2)) / target <= float(chi2.isf(1e-10, N)) / N,
               site="default_rng")
     z = np.zeros((H, W, 4))
     out = Q.add_awgn_snr(z, snr_db)
